@@ -716,6 +716,8 @@ class Concretiser:
 
     def _prefix_clash(self, data):
         others = [x for x in self.blob_bytes.values() if x != data]
+        if data:
+            others = others + [b""]       # the empty string cannot be re-drawn: keep clear of its digests' directories too
         if not others:
             return False
         for algo in ("sha1", "sha256", "sha384", "sha512"):
